@@ -1,0 +1,37 @@
+//go:build verif
+
+// Contracts for govc (/verif): C20 "Round links only move forward and never point at their own chain" -- storage side.
+// Comment-only file.
+//
+// PART 1: the Store INTERFACE as the kernel sees it (assumed contracts; kernel/graph.go is verified against them).
+// The state of a store is abstracted by a ghost version number  ghostint(storever, ptrof(s))  (a new, unconstrained
+// number after every mutating call) and uninterpreted observation functions of (version, key):
+//   SLink(v, from, to)      the durable link from -> to (0 when there is none: readLink returns 0 on ErrKeyNotFound)
+//   SHasRound(v, h)         a ROUND record is stored under h
+//   SRoundNodeId/SRoundNumber/SRoundSelf/SRoundExternal(v, h)   fields of that record
+// PART 2 (below) verifies the BadgerStore implementation of the same methods against the key-value model T-KV
+// (trusted/badger.spec); the correspondence SLink(v, f, t) == LinkOf(db, f, t) etc. between the two parts is by
+// reading the clauses side by side (meta-level; the engine does not check that an implementation refines an interface contract).
+
+package storage
+
+//@ uninterp SLink(v mathint, from crypto.Hash, to crypto.Hash) mathint
+//@ uninterp SHasRound(v mathint, h crypto.Hash) bool
+//@ uninterp SRoundNodeId(v mathint, h crypto.Hash) crypto.Hash
+//@ uninterp SRoundNumber(v mathint, h crypto.Hash) mathint
+//@ uninterp SRoundSelf(v mathint, h crypto.Hash) crypto.Hash
+//@ uninterp SRoundExternal(v mathint, h crypto.Hash) crypto.Hash
+//@ spec StoreVer(s Store) mathint = ghostint(storever, ptrof(s))
+
+//@ assume func (s Store) ReadLink(from, to)
+//@   modifies nothing
+//@   ensures [link] err == nil ==> result0 == SLink(StoreVer(recv), from, to)
+
+//@ assume func (s Store) ReadRound(hash)
+//@   -- readRound: (nil, nil) when the key is absent, (nil, err) on error, otherwise the decoded record (a new object); it
+//@   -- panics on a record whose Hash field is zero, so a returned round has a non-zero Hash
+//@   modifies nothing
+//@   ensures [err] err != nil ==> result0 == nil
+//@   ensures [absent] err == nil && result0 == nil ==> !SHasRound(StoreVer(recv), hash)
+//@   ensures [found] result0 != nil ==> fresh(result0) && SHasRound(StoreVer(recv), hash) && result0.Hash.HasValue() &&
+//@       result0.NodeId == SRoundNodeId(StoreVer(recv), hash) && result0.Number == SRoundNumber(StoreVer(recv), hash)
